@@ -5,7 +5,7 @@ import itertools
 
 from mc import grammars as G
 from mc import refsem as R
-from mc.explorer import ExploreStats, explore, gene_domain, MAXSIZE
+from mc.explorer import ExhaustiveSource, ExploreStats, explore, gene_domain, MAXSIZE
 from mc.harness import UnitResult, Violation
 from checks import producers as P
 from checks.common import exc_brief, is_library_error, make_rep
@@ -291,7 +291,21 @@ def run_linear(unit) -> UnitResult:
                         r.add_violation(Violation(PROP, f"{rep_kind}.crossover", "child-not-parental-material", {"L": L},
                                                   {"unit": P.clean_unit(unit), "choices": list(ex.choices), "p1": p1, "p2": p2, "child": sc},
                                                   f"{rep_kind} crossover: child {sc} of {p1} x {p2}: {why}"))
-        for a in genos:
+        # mutation is also applied to offspring of crossover (genotypes no initialiser produces directly)
+        extra = []
+        seen_x = set()
+        for a, b in list(itertools.product(genos[:5], repeat=2)):
+            for choices in ((), (1,), (0, 1), (1, 0), (1, 1)):
+                try:
+                    kids = mk(ExhaustiveSource(choices, strict=False, **skw)).crossover(ExhaustiveSource(choices, strict=False, **skw), a, b)
+                except Exception:  # noqa
+                    continue
+                for kch in kids:
+                    key = genotype_snapshot(kch)
+                    if key not in seen and key not in seen_x:
+                        seen_x.add(key)
+                        extra.append(kch)
+        for a in genos + extra[:12]:
             sa = shape(a)
 
             def mut(src, a=a):
